@@ -127,8 +127,14 @@ def mesh_counts(ctx: Context, rule: str) -> None:
     """edge_count: the size of the edge dimension when the dataset has it, else the number of rows of the edge-node table in use."""
     fi = ctx.func(f"{TOPO}.edge_count")
     flow = ctx.flow(fi)
-    vals = [norm_text(flow.resolve(r.value)) for r in sorted(fi.returns(), key=lambda r: r.lineno)]
+    from .common import facts, spell_out
+    rets = sorted(fi.returns(), key=lambda r: r.lineno)
+    vals = [norm_text(spell_out(fi, flow.resolve(r.value))) for r in rets]
     ok = vals == ['self.dataset.sizes[self.edge_dimension]', 'self.edge_node_array.shape[0]']
+    if ok:
+        # the size is read when the dataset has the dimension (asked, or found out by trying), the table is counted when it has not
+        have = ('self.edge_dimension in self.dataset.sizes', True)
+        ok = have in facts(ctx, fi, rets[0]) and (have[0], False) in facts(ctx, fi, rets[1])
     ctx.check(rule, ok, "edge_count is the size of the edge dimension, else the row count of the edge-node table (no closed formula: meshes have holes, islands and unused nodes)", fi,
               fi.node, construct=f"edge_count returns {vals}")
 
@@ -149,7 +155,8 @@ def start_index_source(ctx: Context, rule: str) -> None:
     reads = [n for n in ast.walk(gs.node) if (isinstance(n, ast.Subscript) and const_value(n.slice, None) == 'start_index' and isinstance(n.ctx, ast.Load))
              or (isinstance(n, ast.Call) and isinstance(n.func, ast.Attribute) and n.func.attr == 'get' and n.args and const_value(n.args[0], None) == 'start_index')]
     own = all(norm_text(n.value if isinstance(n, ast.Subscript) else n.func.value) == f"{p0}.attrs" for n in reads)
-    absent = [r for r in gs.returns() if (f"'start_index' in {p0}.attrs", False) in guards(gs, r)]
+    from .common import facts as _facts_si
+    absent = [r for r in gs.returns() if (f"'start_index' in {p0}.attrs", False) in _facts_si(ctx, gs, r)]
     ok = bool(reads) and own and len(absent) == 1 and const_value(absent[0].value, None) == 0
     ctx.check(rule, ok, "_get_start_index reads the variable's own attribute with the UGRID default 0", gs, reads[0] if reads else gs.node,
               construct=f"_get_start_index: reads {[norm_text(n) for n in reads]}; absent -> {[norm_text(r.value) for r in absent]}")
